@@ -20,9 +20,18 @@ struct Ctx {
     out: BufWriter<File>,
     sum: Summary,
     events: u64,
+    text: Option<Vec<u8>>,
 }
 
 impl Ctx {
+    /// `text`: the input when it is UTF-8 without a byte order mark (offsets in the chunker's events are then
+    /// offsets into it), so that each cut can be related to the line structure of the text.
+    fn run_text(&mut self, label: &str, text: Option<&[u8]>, inlen: usize, f: impl FnOnce() -> Result<(), String>) {
+        self.text = text.map(<[u8]>::to_vec);
+        self.run(label, inlen, f);
+        self.text = None;
+    }
+
     fn run(&mut self, label: &str, inlen: usize, f: impl FnOnce() -> Result<(), String>) {
         // live heap before and after the run (counting allocator): whatever the run allocated and did not
         // release is a leak.  Everything the run owns (reader, results, events) is dropped before measuring.
@@ -44,7 +53,17 @@ impl Ctx {
         let mut n = 0;
         for e in &evs {
             if KINDS.contains(&e.kind) {
-                writeln!(self.out, "{}", json!({"ev": e.kind, "a": e.a, "b": e.b, "c": e.c})).unwrap();
+                let mut r = json!({"ev": e.kind, "a": e.a, "b": e.b, "c": e.c});
+                if e.kind == "chunk_doc_start" {
+                    // bol: the chunk starts at the beginning of a line of the text (or the text is not available)
+                    r["bol"] = json!(match &self.text {
+                        Some(t) => e.a == 0 || t.get(e.a as usize - 1).map(|b| *b == b'\n' || *b == b'\r').unwrap_or(true)
+                            || (e.a >= 2 && matches!(&t[..e.a as usize], [.., 0xc2, 0x85]))
+                            || (e.a >= 3 && matches!(&t[..e.a as usize], [.., 0xe2, 0x80, 0xa8 | 0xa9])),
+                        None => true,
+                    });
+                }
+                writeln!(self.out, "{r}").unwrap();
                 n += 1;
             }
         }
@@ -69,7 +88,7 @@ fn translate(bytes: &Rc<Vec<u8>>, explicit: bool, reader: Option<SchedReader>) -
 
 pub fn record(out_path: &str, count: u64, panics: bool) {
     let seed = seed_from_env();
-    let mut cx = Ctx { out: BufWriter::new(File::create(out_path).expect("trace")), sum: Summary::new("record-chunker"), events: 0 };
+    let mut cx = Ctx { out: BufWriter::new(File::create(out_path).expect("trace")), sum: Summary::new("record-chunker"), events: 0, text: None };
     // a large input with multi-byte characters straddling the 8 KiB / 16 KiB refill boundaries
     let mut big = String::from("---\nk: \"");
     while big.len() < 40000 {
@@ -84,6 +103,9 @@ pub fn record(out_path: &str, count: u64, panics: bool) {
         ("evil".into(), b"---\nevil: true".to_vec()),
         // DOCUMENT-START events that own heap data: version and tag directives
         ("directives".into(), b"%YAML 1.1\n%TAG !e! tag:example.com,2000:app/\n%TAG ! tag:example.com,2000:\n---\n!e!thing {a: !x b}\n...\n%YAML 1.1\n---\n- c\n...\n%TAG !f! tag:f,1:\n--- !f!y d\n".to_vec()),
+        // documents whose first line is indented (the chunk must keep the indentation), also after '...'
+        ("indented-seq".into(), b"  - a\n  - b\n".to_vec()), ("indented-map".into(), b"# c\n   a: 1\n   b:\n     - 2\n".to_vec()),
+        ("indented-marker-lookalike".into(), b"  ---\n".to_vec()), ("indented-after-end".into(), b"--- x\n...\n  k: v\n  l: w\n...\n \"q\"\n".to_vec()),
         ("directive-then-error".into(), b"%YAML 1.1\n%TAG !e! tag:example.com,2000:\n---\n- [unclosed\n".to_vec())];
     // every boundary of the surrogate ranges, unpaired and paired, in both byte orders
     for (i, units) in [vec![0xd7ffu16], vec![0xd800], vec![0xdbff], vec![0xdc00], vec![0xdfff], vec![0xe000], vec![0xd800, 0xdc00], vec![0xdbff, 0xdfff],
@@ -119,9 +141,11 @@ pub fn record(out_path: &str, count: u64, panics: bool) {
         let mut rng = Rng::derive(seed, "chunker-run", ii as u64);
         let bytes = Rc::new(bytes);
         let small = bytes.len() < 2000;
+        let utf8_text: Option<Vec<u8>> = if std::str::from_utf8(&bytes).is_ok() && !bytes.starts_with(&[0xef, 0xbb, 0xbf]) && !bytes.contains(&0) { Some(bytes.to_vec()) } else { None };
+        let text = utf8_text.as_deref();
         // (a) every supply: slice / reader, explicit / detected (detection abandons its chunker early)
         for explicit in [true, false] {
-            cx.run(&format!("{label}/slice/{explicit}"), bytes.len(), || translate(&bytes, explicit, None));
+            cx.run_text(&format!("{label}/slice/{explicit}"), text, bytes.len(), || translate(&bytes, explicit, None));
             let mut scheds = vec![Sched::All, Sched::Fixed(7), Sched::Random(Rng::new(rng.next()), 300)];
             if small {
                 scheds.push(Sched::Fixed(1));
@@ -129,13 +153,13 @@ pub fn record(out_path: &str, count: u64, panics: bool) {
             for sc in scheds {
                 let d = sc.describe();
                 let rd = SchedReader::new(bytes.clone(), sc, new_log());
-                cx.run(&format!("{label}/reader/{explicit}/{d}"), bytes.len(), || translate(&bytes, explicit, Some(rd)));
+                cx.run_text(&format!("{label}/reader/{explicit}/{d}"), text, bytes.len(), || translate(&bytes, explicit, Some(rd)));
             }
             // (b) the reader fails at some offsets
             for _ in 0..3 {
                 let k = rng.below(bytes.len() as u64 + 1) as usize;
                 let rd = SchedReader::new(bytes.clone(), Sched::Fixed(rng.range(1, 64) as usize), new_log()).with_fault(k);
-                cx.run(&format!("{label}/rfault@{k}/{explicit}"), bytes.len(), || translate(&bytes, explicit, Some(rd)));
+                cx.run_text(&format!("{label}/rfault@{k}/{explicit}"), text, bytes.len(), || translate(&bytes, explicit, Some(rd)));
             }
             // (c) a reader that over-reports by every small excess (and by a lot), from various read calls on
             for excess in [1usize, 2, 3, 5, 8, 13, 17, 100_000] {
@@ -152,7 +176,7 @@ pub fn record(out_path: &str, count: u64, panics: bool) {
         // (d) the chunker alone, dropped after j documents
         for j in 0..3usize {
             let rd = SchedReader::new(bytes.clone(), Sched::Fixed(rng.range(1, 40) as usize), new_log());
-            cx.run(&format!("{label}/chunks/drop-after-{j}"), bytes.len(), || {
+            cx.run_text(&format!("{label}/chunks/drop-after-{j}"), text, bytes.len(), || {
                 let mut it = xt::verif::yaml_chunks(rd);
                 for _ in 0..j {
                     match it.next() {
